@@ -963,6 +963,10 @@ func driveZipRoundTrip(tw *TraceWriter, rnd *rand.Rand, maxFiles int) {
 			d = dirs[0]
 		}
 		n := randName()
+		if rnd.Intn(7) == 0 {
+			// names that also occur AROUND the tree: the archive's own file name, the names of the directories involved
+			n = []string{"arch.zip", "arch.zip", "src", "dest", "out", "Arch.zip", "arch.zip.bak"}[rnd.Intn(7)]
+		}
 		if d.used[n] {
 			continue
 		}
